@@ -177,7 +177,7 @@ func HarnessC03Snapshot(st any) {
 		if via == 0 && (kind == opTruncateAll || kind == opTruncateMethod) {
 			sym.Assume(false)
 		}
-		pattern := c02Pool[sym.Choose("p"+string(rune('0'+step)), np)]
+		pattern := c02Pool[sym.ParamOr("poolfrom", 0)+sym.Choose("p"+string(rune('0'+step)), np)]
 		probes = append(probes, mentry{method: "GET", pattern: pattern})
 		if !applyOp(s.r, w, wtxn, model, kind, "GET", pattern) {
 			if wtxn != nil {
